@@ -44,3 +44,8 @@ claim("C17",
       "Generated bin tables and segmentations (bin-less, one-bin, large segments, boundaries at bin edges and inside bins, ties, null-coverage bins, stepped index) are run through segmetrics with generated statistic subsets and through bintest; every value is compared with an independent computation, the bootstrap CI is checked for order, range and reproducibility under reseeded global RNGs, BH adjustment against its O(n^2) definition on generated p-value vectors.",
       "Trusted: plain-formula models, scipy.stats.t / erfc; weights in (0,1); borderline decisions within 1e-12 of alpha accepted either way.",
       "DESIGN.md 5/C17")
+claim("C13",
+      "property-based testing (Hypothesis): FASTA texts and exclude BEDs generated from run plans; output compared with a per-base character model",
+      "Generated FASTA files (runs of N/n/ACGT/acgt snapped to or straddling line breaks, widths 1..80, empty records, with/without final newline), 0..3 exclude BEDs (nested, overlapping, edge-touching, absent contigs), min-gap 0..300/None and the contig filter are run through get_regions and do_access; the regions must equal the maximal runs of a per-base model (non-N, minus excluded, joined when gap < min_gap) and satisfy the direct clauses (non-empty, sorted, separated, no N/excluded base outside a bridged gap).",
+      "Trusted: the per-base model; fixed table of canonical/non-canonical example names; valid FASTA (no blank lines, unique names).",
+      "DESIGN.md 5/C13")
